@@ -429,6 +429,29 @@ fn c10_post(plan: &mut LPlan, seed: u64) {
     plan.fine = true;
     sprinkle_must_land(plan, seed);
     inject_ack_nak_noise(plan, seed, 0, 8);
+    {
+        // the guard starts on and is switched off at run time - a few hundred milliseconds after a
+        // loaded link fell silent (pulled by the fast tier, not yet latched), or a few seconds
+        // after (latched): from then on nothing of it may influence classic routing
+        let mut r = crate::prng::Rng::new(seed ^ 0x6A2D);
+        if plan.n_links >= 2 && r.chance(0.3) {
+            let (lo, hi) = traffic_window(plan);
+            plan.cfg.stall_guard = true;
+            plan.cfg.stall_min_in_flight = *r.pick(&[1, 2, 4, 8]);
+            let l = r.below(plan.n_links as u64) as usize;
+            let t1 = r.range(lo + 300, (lo + 3_000).min(hi.saturating_sub(2_000)).max(lo + 301));
+            plan.actions.push(TimedAction { t: t1, kind: Action::Blackhole { link: l, up: true, down: true, on: true } });
+            let dt = if r.chance(0.6) { r.range(280, 950) } else { r.range(1_200, 4_000) };
+            plan.actions.push(TimedAction {
+                t: t1 + dt,
+                kind: Action::Control { line: r#"{"jsonrpc":"2.0","method":"set_stall_deselect","params":{"enabled":false}}"#.into() },
+            });
+            // keep the stream going across the toggle
+            plan.actions.push(TimedAction { t: t1.saturating_sub(200), kind: Action::Burst { n: 4_000, pps: *r.pick(&[400u32, 800, 1500]), size_lo: 100, size_hi: 1316, stride: 1 } });
+            plan.horizon_ms = plan.horizon_ms.max(t1 + dt + 3_000);
+            plan.actions.sort_by_key(|a| a.t);
+        }
+    }
     if !plan.cfg.classic {
         // an enhanced-mode phase first, leaving quality caches stale
         let mut r = crate::prng::Rng::new(seed ^ 0xC1A5);
